@@ -96,6 +96,23 @@ def job(item):
     return out
 
 
+# closed forms with a symbolic constant that is literally called n (a legal parameter name in a program; the loop counter
+# is the INTEGER symbol n): "P" below stands for the parameter.  After the real run the parameter is renamed so that the
+# harness never identifies the two.
+PARAM_N = [["n*P", "n"], ["n*P + 1", "n", "2**n"], ["P**2*n", "P*n"], ["P*2**n", "2**n", "n"], ["n*(n+1)/2*P", "n"]]
+
+
+def param_n_run(tup, timeout=120):
+    import sympy as sp
+    from invariants.invariant_ideal import InvariantIdeal
+    P, Pn = sp.Symbol("n"), sp.Symbol("nparam")
+    cfs = {f"g{i}": sp.sympify(s_, locals={"n": N1, "P": P}) for i, s_ in enumerate(tup)}
+    with polar_iface.time_limit(timeout):
+        basis = InvariantIdeal(dict(cfs)).compute_basis()
+    gs = [sp.Symbol(f"g{i}") for i in range(len(tup))]
+    return gs, [cfs[f"g{i}"].xreplace({P: Pn}) for i in range(len(tup))], [sp.expand(sp.sympify(b)).xreplace({P: Pn}) for b in basis], 0
+
+
 def main(pid="C06"):
     run = Run(pid, "other")
     tups = invfam.tuples(run.quick, run.seed)
@@ -105,6 +122,10 @@ def main(pid="C06"):
     for t in invfam.MUST[: (8 if run.quick else len(invfam.MUST))]:
         for c in ((9, 98) if run.quick else (7, 8, 9, 10, 97, 98, 99, 998)):
             items.append({"tuple": t, "rational": True, "which": pid, "D": 3, "timeout": 60, "counter": c})
+    if pid == "C06":
+        import functools
+        for t in PARAM_N:
+            items.append({"tuple": t, "rational": True, "which": pid, "D": 3, "timeout": 60, "closed_forms": functools.partial(param_n_run, t)})
     if run.args.only:
         items = [i for i in items if run.args.only in "; ".join(i["tuple"])]
     results = jobs.run_jobs(job, items, timeout=300 if run.quick else 900)
